@@ -69,6 +69,7 @@ package js_parser
 // of existing symbols are harmless by construction). The rule is restricted to these functions because a
 // general "every newSymbol" rule cannot see checks made in callers (27 of 60 sites undecided: not claimed).
 //@ checked label-name-representable C16: site=call newSymbol arg1=ast.SymbolLabel arg2 ; by=call checkForUnrepresentableIdentifier arg2 ; in=js_parser ; scenario=nonbmp_identifier
+//@ checked reexport-name-representable C16: site=call newSymbol arg1=ast.SymbolOther arg2 ; by=call checkForUnrepresentableIdentifier arg2 ; in=js_parser ; only=(*parser).visitAndAppendStmt ; scenario=export_star_as_string_nonbmp
 //@ checked class-expr-name-representable C16: site=call newSymbol arg2 ; by=call checkForUnrepresentableIdentifier arg2 ; in=js_parser ; only=(*parser).parseClassExpr ; scenario=nonbmp_identifier
 
 // ----------------------------------------------------------------------------------------------
@@ -242,3 +243,14 @@ package js_parser
 //@   prop C15
 //@   opt scenario class_strict_block_fn
 //@   ensures class-body-is-strict-from-the-parse-pass: kind == js_ast.ScopeClassBody ==> p.currentScope.StrictMode != js_ast.SloppyMode
+
+// C16 (no panic): a `static { ... }` block is a ClassElement; an object literal has no such member, and nothing downstream
+// of the parser expects a PropertyClassStaticBlock outside a class (the visitor reaches a nil expression and panics
+// "Unexpected expression of type <nil>"). parseProperty may build one only when it is parsing a class body.
+//@ guarded static-blocks-only-in-classes C16: func=(*parser).parseProperty ; in=js_parser ; site=store Property.Kind const js_ast.PropertyClassStaticBlock ; scenario=object_literal_static_block ; require=true:opts.isClass
+
+// C16: the tables handed to the string-in-JS remapping functions (which require a non-empty table) come from
+// GenerateStringInJSTable (which guarantees one).
+//@ flow string-in-js-tables-come-from-the-generator.log C16: func=(*parser).visitExprInOut ; in=js_parser ; site=call NewStringInJSLog ; argpath=2:call GenerateStringInJSTable(*)
+//@ flow string-in-js-tables-come-from-the-generator.remap C16: func=(*parser).visitExprInOut ; in=js_parser ; site=call remapExprLocsInJSON ; argpath=1:call GenerateStringInJSTable(*)
+//@ flow string-in-js-tables-come-from-the-generator.rec C16: func=remapExprLocsInJSON ; in=js_parser ; site=call RemapStringInJSLoc ; argpath=0:table
